@@ -22,6 +22,7 @@
 #include <iostream>
 #include <limits>
 #include <stdexcept>
+#include <string>
 
 // Third party:
 // - GSL:
@@ -363,6 +364,11 @@ namespace bxdecay0 {
       }
       if (ebb2 > e0) {
         ebb2 = e0;
+      }
+      if (ebb1 >= ebb2) {
+        // The requested range lies entirely above the energy available in this transition
+        throw std::logic_error("bxdecay0::decay0_bb: Invalid energy range (Emin=" + std::to_string(ebb1)
+                               + " >= Emax=" + std::to_string(ebb2) + ") (MeV) for this transition!");
       }
       if (trace) {
         std::cerr << "[trace] bxdecay0::bb: ebb1 = " << ebb1 << std::endl;
